@@ -19,6 +19,12 @@
 #undef private
 #undef protected
 #include "memory_managers/orig_grid.h"
+#include "memory_managers/array_grid.h"
+#include "memory_managers/heap_manager.h"
+#include "memory_managers/freelists.h"
+#ifndef MMSTYLE
+#define MMSTYLE orig_grid_style
+#endif
 using namespace MEDDLY;
 
 #define NSZ 3
@@ -122,7 +128,7 @@ static void symbolic_map(childmap &m, unsigned pat) {
 }
 
 #define SETUP() \
-  setup_forest(); memstats ms; orig_grid_style mst("grid"); simple_separated S("simple", F, &mst, ms); F->nodeMan = &S;
+  setup_forest(); memstats ms; MMSTYLE mst("mm"); simple_separated S("simple", F, &mst, ms); F->nodeMan = &S;
 
 static void setup_forest() {
 #if KIND == 0
@@ -224,5 +230,48 @@ extern "C" void c01_codec()
   vp_assume(nx >= 0);
   S.setNextOf(addr, nx);
   vp_assert(S.areDuplicates(addr, uf), "chain link does not change the content");
+  vp_reach();
+}
+
+// ---- C12: storage behaves the same under every memory manager and storage option:
+// store A and B, release A (children are terminals, so nothing else is touched), store C
+// (which may reuse or split A's hole, leaving padding recorded in the node tail); B and C
+// must read back exactly.  Shapes PAT (A), PATB, PATC compile-time; children symbolic terminals.
+#ifndef PATB
+#define PATB 5
+#endif
+#ifndef PATC
+#define PATC 1
+#endif
+static void terminal_children(childmap &m) {
+  for (unsigned i = 0; i < NSZ; i++) if (m.dn[i] != F->transparent_node) vp_assume(m.dn[i] < 0);
+}
+extern "C" void c12_store()
+{
+  SETUP();
+  childmap a, b, c; symbolic_map(a, PAT); symbolic_map(b, PATB); symbolic_map(c, PATC);
+  terminal_children(a); terminal_children(b); terminal_children(c);
+  unpacked_node ua(F, FULL_OR_SPARSE), ub(F, FULL_OR_SPARSE), uc(F, FULL_OR_SPARSE);
+  fill_full(ua, a); fill_full(ub, b); fill_full(uc, c);
+  node_address A = S.makeNode(7, ua, OPTS[OPT]);
+  node_address B = S.makeNode(8, ub, OPTS[OPT]);
+  vp_assert(A != 0 && B != 0 && A != B, "two nodes stored at distinct addresses");
+  vp_assert(S.areDuplicates(A, ua) && S.areDuplicates(B, ub), "both nodes read back");
+  S.unlinkDownAndRecycle(A);
+  vp_assert(S.areDuplicates(B, ub), "releasing a node leaves the other node intact");
+  node_address C = S.makeNode(9, uc, OPTS[OPT]);
+  vp_assert(C != 0 && C != B, "third node stored");
+  if (C == A) vp_cover(1);              // the hole was reused
+  vp_assert(S.areDuplicates(C, uc), "node stored into recycled memory reads back");
+  vp_assert(S.areDuplicates(B, ub), "storing into recycled memory leaves the live node intact");
+  {
+    unpacked_node r(F, FULL_OR_SPARSE); r.resize(NSZ); r.setLevel(1);
+    S.fillUnpacked(r, B, FULL_ONLY);
+    vp_assert(denotes(r, b), "live node unpacks to its child map after churn");
+    unpacked_node q(F, FULL_OR_SPARSE); q.resize(NSZ); q.setLevel(1);
+    S.fillUnpacked(q, C, SPARSE_ONLY);
+    vp_assert(denotes(q, c), "node in recycled memory unpacks to its child map");
+  }
+  S.unlinkDownAndRecycle(B); S.unlinkDownAndRecycle(C);
   vp_reach();
 }
